@@ -68,6 +68,10 @@ def cases(tier, seed):
             for ext in pext:
                 for sig in ("00", "01", "10", "11", "20", "mixed2"):
                     out.append({"block": "MaxNormPool", "d": d, "sig": sig, "c": 2, "patch": patch, "ext": ext, "cost": 6 if d == 3 else 1})
+                # call history in one process: the plain-max variant (use_norm=False, what a conventional U-Net builds) is
+                # used on scalar channels FIRST, then the default norm-based layer of the same patch length on pseudo types
+                out.append({"block": "MaxNormPool", "d": d, "sig": "01", "c": 2, "patch": patch, "ext": ext, "after_plain": True, "cost": 6 if d == 3 else 1})
+                out.append({"block": "MaxNormPool", "d": d, "sig": "mixed2", "c": 2, "patch": patch, "ext": ext, "after_plain": True, "cost": 6 if d == 3 else 1})
                 for k in (0, 1, 2):
                     for variant in ("norm", "comparator", "plain"):
                         if variant == "plain" and k > 0:
@@ -207,6 +211,15 @@ def run_case(case, seed):
     elif blk == "MaxNormPool":
         sig = _sig(case["sig"], case["c"])
         p_ = case["patch"]
+        if case.get("after_plain"):
+            plain = ml.MaxNormPool(p_, use_norm=False)
+            xs0 = mlh.make_input([((0, 0), 2)], D, sp, rng, integer=False)
+            y0 = mlh.np_blocks(plain(mlh.to_mi(xs0, D, flags)))[(0, 0)]
+            blocks0 = xs0[(0, 0)].reshape((2,) + tuple(q for s_ in sp for q in (s_ // p_, p_)))
+            exp0 = blocks0.max(axis=tuple(2 + 2 * i for i in range(D)))
+            evals += 1
+            if y0.shape != exp0.shape or not np.array_equal(y0, exp0):
+                bad("C08/maxnormpool/plain-max-of-scalars", "MaxNormPool(use_norm=False) on scalar channels is not the per-patch maximum")
         layer = ml.MaxNormPool(p_)
         sh = [(tuple(p_ * a for a in m), m) for m in it.product(*[range(s // p_) for s in sp]) if any(m)]
         run_layer(layer, sig, ["ramp"], shifts_list=sh, premise=lambda xb: _unique_max(xb, D, p_), fpbase="maxnormpool")
